@@ -9,6 +9,8 @@ import (
 	"fmt"
 	"net/http"
 	"sync"
+	"sync/atomic"
+	"unsafe"
 
 	"Havoc/pkg/agent"
 
@@ -98,6 +100,15 @@ type refAgent struct {
 	A      *agent.Agent // the teamserver's session object (tables are read under its own mutexes only)
 	mu     sync.Mutex
 	others int // tasks that are not COMMAND_SOCKET / NOJOB
+	ptr    uint64       // address of A, as the queue.add hook sees it
+	handed atomic.Int64 // tasks (of any command) received in check-ins
+}
+
+// queueMiscount: did the job queue hand this agent a different number of tasks than were
+// added for it? (call when nothing is in flight)
+func (a *refAgent) queueMiscount() (adds, handed int64, off bool) {
+	adds, handed = addsOf(a.ptr), a.handed.Load()
+	return adds, handed, adds != handed
 }
 
 func newRefAgent(r *rig.Rig, eng http.Handler, id uint32) (*refAgent, error) {
@@ -128,6 +139,7 @@ func newRefAgent(r *rig.Rig, eng http.Handler, id uint32) (*refAgent, error) {
 	if a.A == nil {
 		return nil, fmt.Errorf("agent %s not in the session table after registration", a.Name)
 	}
+	a.ptr = uint64(uintptr(unsafe.Pointer(a.A)))
 	return a, nil
 }
 
@@ -153,6 +165,9 @@ func (a *refAgent) checkin(cbs ...demon.Callback) checkinResult {
 		res.BadFmt = true
 	}
 	for _, t := range ts {
+		if t.Cmd != demon.CmdNoJob {
+			a.handed.Add(1)
+		}
 		switch t.Cmd {
 		case demon.CmdSocket:
 			res.Tasks = append(res.Tasks, decodeSock(t.Body))
